@@ -2,7 +2,11 @@
 
 package tls
 
-import "sync"
+import (
+	"sync"
+
+	"github.com/refraction-networking/utls/internal/tls13"
+)
 
 // VerifOverride lets the verification harness make the in-tree test server
 // behave in ways a compliant server would not. Only compiled with -tags verif.
@@ -18,6 +22,7 @@ type VerifOverride struct {
 	ReadClientEE      bool // read a client EncryptedExtensions before the client's Finished
 	ClientEE          []byte
 	Emit              func(ev string, data []byte)
+	TicketNonce       []byte // TLS 1.3 server: ticket_nonce of the NewSessionTicket (the PSK is derived with it, RFC 8446 4.6.1)
 }
 
 var verifOverrides sync.Map
@@ -141,4 +146,14 @@ func verifGroup12(config *Config, g CurveID) CurveID {
 		}
 	}
 	return g
+}
+
+// verifTicketNonce makes the TLS 1.3 server issue its ticket with a non-empty ticket_nonce, as other stacks do.
+func verifTicketNonce(c *Conn, suite *cipherSuiteTLS13, m *newSessionTicketMsgTLS13, psk []byte) []byte {
+	o := verifOv(c)
+	if o == nil || len(o.TicketNonce) == 0 {
+		return psk
+	}
+	m.nonce = o.TicketNonce
+	return tls13.ExpandLabel(suite.hash.New, c.resumptionSecret, "resumption", o.TicketNonce, suite.hash.Size())
 }
